@@ -335,6 +335,12 @@ macro_rules! spawn_derived {
                                 (Some(value), Some(inner), Some(wakers), Some(loading)) => {
                                     // generate new Future
                                     let owner = inner.read().or_poisoned().owner.clone();
+                                    // if the check above reports that a source has changed since
+                                    // the initial Future was created (e.g. a memo, which does not
+                                    // mark this node dirty), that Future is stale as well
+                                    if update_if_necessary {
+                                        initial_fut.take();
+                                    }
                                     let fut = initial_fut.take().unwrap_or_else(|| {
                                         let fut = if $should_track {
                                             owner.with_cleanup(|| {
